@@ -420,6 +420,22 @@ impl<S: SelfEmulation> VerifierGadget<S> {
                 .collect::<Result<Vec<_>, Error>>()?
         };
 
+        #[cfg(feature = "verif-hooks")]
+        {
+            super::verif_hooks::arith_log::<S::F>(
+                "challenges",
+                &[
+                    theta.clone(),
+                    beta.clone(),
+                    gamma.clone(),
+                    trash_challenge.clone(),
+                    y.clone(),
+                    x.clone(),
+                ],
+            );
+            super::verif_hooks::arith_log::<S::F>("instance_evals", &instance_evals);
+        }
+
         let advice_evals = (0..cs.advice_queries().len())
             .map(|_| transcript.read_scalar(layouter))
             .collect::<Result<Vec<_>, _>>()?;
@@ -462,6 +478,11 @@ impl<S: SelfEmulation> VerifierGadget<S> {
             let l_last = l_evals[0].clone();
             let l_blind = sum::<S::F>(layouter, &self.scalar_chip, &l_evals[1..=blinding_factors])?;
             let l_0 = l_evals[1 + blinding_factors].clone();
+            #[cfg(feature = "verif-hooks")]
+            super::verif_hooks::arith_log::<S::F>(
+                "lagrange",
+                &[l_0.clone(), l_last.clone(), l_blind.clone()],
+            );
 
             // Compute the expected value of h(x)
             let expressions = {
@@ -554,6 +575,11 @@ impl<S: SelfEmulation> VerifierGadget<S> {
             let splitting_factor =
                 ArithInstructions::pow(&self.scalar_chip, layouter, &x, (1 << k) - 1)?;
             let xn = self.scalar_chip.mul(layouter, &x, &splitting_factor, None)?;
+            #[cfg(feature = "verif-hooks")]
+            {
+                super::verif_hooks::arith_log::<S::F>("ids", &expressions);
+                super::verif_hooks::arith_log::<S::F>("xn", std::slice::from_ref(&xn));
+            }
             vanishing.verify(
                 layouter,
                 &self.scalar_chip,
